@@ -31,9 +31,11 @@ let run (st : stream) (b : Buffer.t) : unit =
       let ty = next_z st in let k = next_int st in
       let nodes = repeat k (fun () -> parse_nid (next st)) in (ty, nodes)) in
     let blocks = ref [] in
+    let out = ref None in
     while not (eof st) do
       match next st with
       | "SCHED" -> let (label, o) = read_sched st in blocks := (label, o) :: !blocks
+      | "OUT" -> out := Some (Outcheck.read_out st)
       | _ -> ()
     done;
     let blocks = List.rev !blocks in
@@ -75,7 +77,21 @@ let run (st : stream) (b : Buffer.t) : unit =
                let sopt = set_next_day_transitions !cur trans in
                Opsmodel.dump_schedule nw sopt "opt" b;
                (match reassign_end_depots_consistent nw sopt with
-                | Ok sf -> Opsmodel.dump_schedule nw sf "final" b
+                | Ok sf ->
+                  Opsmodel.dump_schedule nw sf "final" b;
+                  (* the returned JSON must be the rendering of the final schedule *)
+                  (match !out, render nw sf with
+                   | Some o, Ok r ->
+                     let srt l = List.sort compare l in
+                     let diffs = List.filter (fun (_, same) -> not same)
+                       [ ("objective", o.o_obj = r.o_obj); ("vehicles", o.o_vehicles = r.o_vehicles);
+                         ("cycles", o.o_cycles = r.o_cycles); ("segments", srt o.o_segs = srt r.o_segs);
+                         ("slots", srt o.o_slots = srt r.o_slots); ("loads", srt o.o_loads = srt r.o_loads);
+                         ("deadheads", o.o_dhts = r.o_dhts) ] in
+                     if diffs = [] then pr "RENDER ok\n"
+                     else pr "RENDER differs %s\n" (String.concat "," (List.map fst diffs))
+                   | Some _, _ -> pr "RENDER MODELFAIL\n"
+                   | None, _ -> pr "RENDER nojson\n")
                 | _ -> pr "final MODELFAIL\n")
              | None -> pr "opt MISSING\n")
           end
